@@ -55,6 +55,25 @@ def takeLocks(cmdName, path, lockType, nolocks=False, ntry=10, verbose=0):
         raise
 
 def _takeLocks(locks, cmdName, path, lockType, nolocks, ntry, verbose):
+    #
+    # Cleanup, even in the event of the user being rude enough to use kill -- also while we are still waiting
+    # for a lock further down the path, with the locks on the directories before it already taken
+    #
+    def cleanup(*args):
+        giveLocks(locks, verbose)
+
+    import atexit
+    atexit.register(cleanup)            # regular exit
+
+    import signal
+    def killed(signum, frame):          # user killed us
+        cleanup()
+        signal.signal(signum, signal.SIG_DFL) # and we die of it, as we would have without this handler;
+        os.kill(os.getpid(), signum)    # returning from here would let the command carry on without its locks
+
+    signal.signal(signal.SIGINT, killed)
+    signal.signal(signal.SIGTERM, killed)
+
     if hooks.config.site.lockDirectoryBase is None:
         if verbose > 2:
             print("Locking is disabled", file=utils.stdinfo)
@@ -179,24 +198,6 @@ def _takeLocks(locks, cmdName, path, lockType, nolocks, ntry, verbose):
             if "EUPS_LOCK_PID" not in os.environ: # remember the PID of the process taking the lock
                 os.environ["EUPS_LOCK_PID"] = "%d" % os.getpid()
                 os.putenv("EUPS_LOCK_PID", os.environ["EUPS_LOCK_PID"])
-    #
-    # Cleanup, even in the event of the user being rude enough to use kill
-    #
-    def cleanup(*args):
-        giveLocks(locks, verbose)
-
-    import atexit
-    atexit.register(cleanup)            # regular exit
-
-    import signal
-    def killed(signum, frame):          # user killed us
-        cleanup()
-        signal.signal(signum, signal.SIG_DFL) # and we die of it, as we would have without this handler;
-        os.kill(os.getpid(), signum)    # returning from here would let the command carry on without its locks
-
-    signal.signal(signal.SIGINT, killed)
-    signal.signal(signal.SIGTERM, killed)
-
     return locks
 
 def giveLocks(locks, verbose=0):
